@@ -99,6 +99,16 @@ def run(R):
         for pp in ([2, 3, 49, 50, 51, 113] if quick else list(range(2, 120))):
             st = tag + S.enc_var(47, 0) + S.enc_var(7, 1) + S.enc_var(1, 1) + S.enc_var(1, 1) + S.enc_var(pp, 2) + b"$" + salt
             g.append(CS.crypt_op("rn", 0, base, st)); gi.append((tag.decode(), 10, "cost", "p=%d" % pp))
+        # the time parameter t (optional field, absent = 0; crypt_gensalt never writes it) and N itself (seeded/C03e: t ignored by the final pass)
+        for tt in ([0, 1, 2, 3, 5] if quick else list(range(0, 40))):
+            st = tag + S.enc_var(47, 0) + S.enc_var(6, 1) + S.enc_var(2, 1) + (S.enc_var(2, 1) + S.enc_var(tt, 1) if tt else b"") + b"$" + salt
+            g.append(CS.crypt_op("rn", 0, base, st)); gi.append((tag.decode(), 10, "cost", "N=2^6,r=2,t=%d" % tt))
+        for tt in ([1, 2, 3] if quick else list(range(1, 20))):
+            st = tag + S.enc_var(47, 0) + S.enc_var(6, 1) + S.enc_var(2, 1) + S.enc_var(3, 1) + S.enc_var(2, 2) + S.enc_var(tt, 1) + b"$" + salt
+            g.append(CS.crypt_op("rn", 0, base, st)); gi.append((tag.decode(), 10, "cost", "N=2^6,r=2,p=2,t=%d" % tt))
+        for ln in ([2, 3, 5, 8, 9, 10] if quick else list(range(2, 13))):
+            st = tag + S.enc_var(47, 0) + S.enc_var(ln, 1) + S.enc_var(3, 1) + b"$" + salt
+            g.append(CS.crypt_op("rn", 0, base, st)); gi.append((tag.decode(), 10, "cost", "N=2^%d,r=3" % ln))
         groups.append(g); info.append(gi)
     ops, il, ml = R.run_pair_sharded(groups)
     infos = [x for gi in info for x in gi]
